@@ -288,6 +288,57 @@ def sweep_strip(R, ctx):
         ctx.nontrivial("strip", pad.hex())
 
 
+def sweep_terminated(R, ctx):
+    """NullTerminated with every combination of include / consume / require, one- and two-byte terminators, followed by a member that
+    shows where the stream stands afterwards; every byte string of length 0..6 over {terminator bytes, 'A'}"""
+    i = 0
+    for term in (b"\x00", b"\xff\xfe"):
+        alphabet = sorted(set(term) | {0x41})
+        for include, consume, require in itertools.product((False, True), repeat=3):
+            nt = ["NullTerminated", ["name", "GreedyBytes"], tag(term), include, consume, require]
+            recs = [["Struct", [["h", ["name", "Byte"]], ["z", nt], ["t", ["name", "GreedyBytes"]]]],
+                    ["Struct", [["p", ["Prefixed", ["name", "Byte"], ["Struct", [["z", nt], ["r", ["name", "GreedyBytes"]]]], False]], ["t", ["name", "Byte"]]]]]
+            for n in range(0, 7 if len(alphabet) == 2 else 6):
+                for tup in itertools.product(alphabet, repeat=n):
+                    i += 1
+                    if not ctx.mine(i):
+                        continue
+                    data = bytes(tup)
+                    R.parse(recs[0], b"\x07" + data, {}, "terminated")
+                    R.parse(recs[1], bytes([len(data)]) + data + b"\x09", {}, "terminated")
+            for v in (b"", b"A", b"AA" + term, term, b"A" + term[:1]):
+                R.build(recs[0], {"h": 1, "z": v, "t": b"xy"}, {}, "terminated")
+            ctx.nontrivial("terminated", term.hex(), include, consume, require)
+
+
+def sweep_streamed_bits(R, ctx):
+    """bit regions whose size is discovered while streaming: a streamed region must end on a byte boundary in both directions"""
+    B4 = ["name", "Nibble"]
+    r1 = ["Bitwise", ["Struct", [["n", B4], ["v", ["BitsInteger", ["this", "n"], False, False]]]]]
+    r2 = ["Bitwise", ["GreedyRange", ["BitsInteger", 3, False, False]]]
+    r3 = ["Bitwise", ["Struct", [["xs", ["GreedyRange", ["BitsInteger", 3, False, False]]], ["tail", ["BitsInteger", 2, False, False]]]]]
+    r4 = ["Bitwise", ["Struct", [["a", B4], ["o", ["Optional", ["BitsInteger", 12, False, False]]], ["b", B4]]]]
+    k = 0
+    for n in range(1, 16):
+        for v in (0, 1, (1 << n) - 1):
+            k += 1
+            if ctx.mine(k):
+                R.build(r1, {"n": n, "v": v}, {}, "streamed-bits")
+    for L in range(0, 10):
+        k += 1
+        if ctx.mine(k):
+            R.build(r2, [5] * L, {}, "streamed-bits")
+            R.build(r3, {"xs": [5] * L, "tail": 2}, {}, "streamed-bits")
+    for a in range(256):
+        k += 1
+        if not ctx.mine(k):
+            continue
+        for tail in (b"", b"\x5a", b"\xa5\xc3", b"\xff\x00\x81"):
+            for r in (r1, r2, r3, r4):
+                R.parse(r, bytes([a]) + tail, {}, "streamed-bits")
+    ctx.nontrivial("streamed-bits", "regions", 4)
+
+
 def sweep_negative_lengths(R, ctx, rng):
     recs = [
         ["Prefixed", ["name", "Int8sb"], ["name", "GreedyBytes"], False], ["Prefixed", ["name", "Int8sb"], ["name", "GreedyBytes"], True],
@@ -456,6 +507,8 @@ def run(ctx):
     sweep_floats(R, ctx, rng)
     sweep_strings(R, ctx, rng)
     sweep_strip(R, ctx)
+    sweep_terminated(R, ctx)
+    sweep_streamed_bits(R, ctx)
     sweep_negative_lengths(R, ctx, rng)
     sweep_bits(R, ctx, rng)
     if ctx.mine(3):
